@@ -275,7 +275,7 @@ inductive ScanRes where
   | eof
   /-- the lexer reports a syntax error inside the tag -/
   | error
-  /-- outside the modelled fragment (non-ASCII identifiers, `\u`/`\x`/octal string escapes) -/
+  /-- outside the modelled fragment (non-ASCII identifiers) -/
   | unsupported
   deriving Repr, DecidableEq
 
@@ -298,10 +298,25 @@ structure Num where
   expDigits : Nat
   deriving Repr, DecidableEq
 
+/-- where `utils::unescape` is inside the body of a string literal -/
+inductive Esc where
+  /-- not inside an escape -/
+  | txt
+  /-- directly behind a backslash -/
+  | bs
+  /-- inside `\uXXXX`: `i` of the four characters read, value so far -/
+  | u (i acc : Nat)
+  /-- inside `\xXX`: `i` of the two characters read -/
+  | x (i : Nat)
+  /-- behind an octal escape that may take `k` more digits, value so far -/
+  | oct (k acc : Nat)
+  deriving Repr, DecidableEq
+
 inductive Mode where
   | top
   | ident
-  | str (q : Char) (esc : Bool)
+  /-- inside a string literal: quote, escape state, `pending_surrogate` (0 = none) -/
+  | str (q : Char) (e : Esc) (sur : Nat)
   | num (n : Num)
   deriving Repr, DecidableEq
 
@@ -312,6 +327,78 @@ def isHexLetter (c : Char) : Bool :=
 
 def hexLetterVal (c : Char) : Nat :=
   if 'a'.toNat ≤ c.toNat then c.toNat - 'a'.toNat + 10 else c.toNat - 'A'.toNat + 10
+
+/-! ### string literals: `eat_string` and `utils::unescape`
+
+`eat_string` looks for the closing quote (a backslash protects the next byte) and then hands the
+body to `unescape` when it contains a backslash; an escape that `unescape` rejects (`BadEscape`)
+makes the string token a lexer error, like a missing closing quote does.  The model reads the body
+once and keeps `unescape`'s state; it reports the error at the first character that makes the
+escape invalid (all lexer errors are the same observation). -/
+
+def isOct (c : Char) : Bool := '0'.toNat ≤ c.toNat && c.toNat ≤ '7'.toNat
+
+def isHexDigit (c : Char) : Bool := isDigit c || isHexLetter c
+
+def hexVal (c : Char) : Nat := if isDigit c then c.toNat - '0'.toNat else hexLetterVal c
+
+/-- UTF-16 surrogates `0xD800..=0xDFFF`, high `..=0xDBFF`, low `0xDC00..` -/
+def isSurr (v : Nat) : Bool := 55296 ≤ v && v ≤ 57343
+def isHighSurr (v : Nat) : Bool := 55296 ≤ v && v ≤ 56319
+def isLowSurr (v : Nat) : Bool := 56320 ≤ v && v ≤ 57343
+
+/-- `Unescaper::push_u16`: the new pending surrogate, `none` = `BadEscape`.  A surrogate is kept
+    pending (whichever half it is); the next `\u` must complete a high one with a low one. -/
+def pushU16 (sur v : Nat) : Option Nat :=
+  if isSurr v then
+    (if sur = 0 then some v else if isHighSurr sur && isLowSurr v then some 0 else none)
+  else if sur = 0 then some 0 else none
+
+inductive StrNext where
+  | cont (e : Esc) (sur : Nat)
+  /-- the closing quote -/
+  | close
+  /-- `BadEscape` -/
+  | bad
+
+/-- a character that is not part of an escape: backslash, closing quote, text (`push_char` fails
+    while a surrogate is pending) -/
+def strPlain (q : Char) (sur : Nat) (c : Char) : StrNext :=
+  if c = '\\' then .cont .bs sur
+  else if sur ≠ 0 then .bad
+  else if c = q then .close
+  else .cont .txt 0
+
+/-- one character of a string body.  `\uXXXX` and `\xXX` take exactly four / two characters which
+    `from_str_radix(_, 16)` must accept (hex digits, the first one may be `+`); an octal escape takes
+    up to two more octal digits and must fit a byte; every other character behind a backslash is
+    taken as it is. -/
+def strStep (q : Char) (e : Esc) (sur : Nat) (c : Char) : StrNext :=
+  match e with
+  | .txt => strPlain q sur c
+  | .bs =>
+    if c = 'u' then .cont (.u 0 0) sur
+    else if sur ≠ 0 then .bad
+    else if c = 'x' then .cont (.x 0) 0
+    else if isOct c then .cont (.oct 2 (c.toNat - '0'.toNat)) 0
+    else .cont .txt 0
+  | .u i acc =>
+    if isHexDigit c || (i = 0 && c = '+') then
+      let acc' := if c = '+' then 0 else acc * 16 + hexVal c
+      if i = 3 then
+        match pushU16 sur acc' with
+        | some s => .cont .txt s
+        | none => .bad
+      else .cont (.u (i + 1) acc') sur
+    else .bad
+  | .x i =>
+    if i = 0 then (if isHexDigit c || c = '+' then .cont (.x 1) 0 else .bad)
+    else if isHexDigit c then .cont .txt 0 else .bad
+  | .oct k acc =>
+    if 0 < k && isOct c then
+      let acc' := acc * 8 + (c.toNat - '0'.toNat)
+      if 255 < acc' then .bad else .cont (.oct (k - 1) acc') 0
+    else strPlain q 0 c
 
 inductive NumNext where
   | cont (n : Num)
@@ -402,13 +489,11 @@ def tokCont (m : Mode) (c : Char) (r : List Char) : Cont :=
   | .top => .boundary
   | .ident =>
     if isIdentCont c then .go .ident else if c.toNat ≥ 128 then .fail .unsupported else .boundary
-  | .str q esc =>
-    if esc then
-      (if c = 'u' || c = 'x' || ('0'.toNat ≤ c.toNat && c.toNat ≤ '7'.toNat) then .fail .unsupported
-       else .go (.str q false))
-    else if c = '\\' then .go (.str q true)
-    else if c = q then .go .top
-    else .go (.str q false)
+  | .str q e sur =>
+    match strStep q e sur c with
+    | .cont e' sur' => .go (.str q e' sur')
+    | .close => .go .top
+    | .bad => .fail .error
   | .num n =>
     match numStep n c r with
     | .cont n' => .go (.num n')
@@ -435,7 +520,7 @@ def dispatch (bal : Int) (c : Char) (r : List Char) : Next :=
     match singleOp c with
     | some dl => .goto .top (bal + dl) false
     | none =>
-      if c = '\'' || c = '"' then .goto (.str c false) bal false
+      if c = '\'' || c = '"' then .goto (.str c .txt 0) bal false
       else if isDigit c then
         match radixPrefix c r with
         | some rad => .goto (.num (numInit rad .radixInt)) bal true
@@ -466,7 +551,7 @@ def scanStep (e : List Char) (line : Bool) (m : Mode) (bal : Int) (c : Char) (r 
 /-- the input ends inside the tag -/
 def scanEof (line : Bool) (m : Mode) : ScanRes :=
   match m with
-  | .str _ _ => .error
+  | .str _ _ _ => .error
   | .num n => if numValid n then (if line then .found [] .dflt else .eof) else .error
   | _ => if line then .found [] .dflt else .eof
 
@@ -489,10 +574,13 @@ def stripMarkerIf (b : Bool) (s : List Char) : List Char :=
   | true, c :: r => if c = '-' || c = '+' then r else s
   | _, _ => s
 
-/-- the optional `-`/`+` in front of the block end -/
-def takeMarker (p : List Char) : Ws × List Char :=
+/-- the optional `-`/`+` in front of the block end: like in `tokenize_block_or_var` it is a marker
+    only if the block end follows it (a block end such as `-%>` is otherwise found as such) -/
+def takeMarker (be p : List Char) : Ws × List Char :=
   match p with
-  | c :: r => if c = '-' then (Ws.remove, r) else if c = '+' then (Ws.preserve, r) else (Ws.dflt, p)
+  | c :: r =>
+    if c = '-' && startsWith be r then (Ws.remove, r)
+    else if c = '+' && startsWith be r then (Ws.preserve, r) else (Ws.dflt, p)
   | [] => (Ws.dflt, p)
 
 /-- `skip_basic_tag(block_str, name, block_end, skip_ws_control)` -/
@@ -500,7 +588,7 @@ def skipBasicTag (s name be : List Char) (skipWsControl : Bool) : Option (Nat ×
   let p2 := (stripMarkerIf skipWsControl s).dropWhile isAsciiWs
   if startsWith name p2 then
     let p3 := (p2.drop name.length).dropWhile isAsciiWs
-    let wp := takeMarker p3
+    let wp := takeMarker be p3
     if startsWith be wp.2 then some (s.length - (wp.2.length - be.length), wp.1) else none
   else none
 
@@ -595,7 +683,8 @@ def handleTag (cfg : Cfg) (d : Delims) (lead : List Out) (marker : Marker) (skip
     match findSub d.ce inner with
     | none => .stop (.err lead)
     | some e =>
-      let wsEnd := wsOfChar (after.drop ((e - 1) + skip)).head?
+      -- the byte in front of the end delimiter; an empty body has none (the left marker is part of `skip`)
+      let wsEnd := if e = 0 then Ws.dflt else wsOfChar (after.drop ((e - 1) + skip)).head?
       let n := skip + e + d.ce.length
       let kt := tailWs cfg wsEnd (after.drop n)
       contAfter lead [] preTag after (n + kt.1) kt.2
